@@ -107,6 +107,20 @@ def hS2kCount : Handler
   | [c] => do let c ← pNat c; some (toString (Pgp.s2kCountDecode c))
   | _ => none
 
+/-- `pgp.s2k.key <iterated> <c> <sklen> <hashlen> <salt> <pw> <d0,d1,…> => <s0,s1,…> <key>`:
+    the digests the library obtained are the oracle for the hash function (in order of the
+    contexts); the model recomputes the octet streams and the key. -/
+def hS2kKey : Handler
+  | [it, c, sklen, hashlen, salt, pw, ds] => do
+    let it ← pNat it; let c ← pNat c; let sklen ← pNat sklen; let hashlen ← pNat hashlen
+    let salt ← pHex salt; let pw ← pHex pw
+    let ds ← (if ds = "-" then some [] else (ds.splitOn ",").mapM pHex)
+    let streams := Pgp.s2kStreams hashlen sklen salt pw (it != 0) c
+    let key := ((List.range streams.length).map fun j => ds.getD j []).flatten.take sklen
+    let ss := if streams.isEmpty then "-" else ",".intercalate (streams.map hexOfBytes)
+    some s!"{ss} {if key.isEmpty then "-" else hexOfBytes key}"
+  | _ => none
+
 def handlers : List (String × Handler) := [
   ("pgp.r64.enc", hR64Enc), ("pgp.r64.dec", hR64Dec),
   ("pgp.crc24", hCrc24), ("pgp.crc24.enc", hCrc24Enc),
@@ -116,7 +130,7 @@ def handlers : List (String × Handler) := [
   ("pgp.time", hScalar Pgp.timeEncode),
   ("pgp.mpi.enc", hMpiEnc), ("pgp.mpi.dec", hMpiDec),
   ("pgp.str.enc", hStrEnc), ("pgp.str.dec", hStrDec),
-  ("pgp.s2k.count", hS2kCount)
+  ("pgp.s2k.count", hS2kCount), ("pgp.s2k.key", hS2kKey)
 ]
 
 end Tmcg.DriverPgp
